@@ -157,7 +157,8 @@ impl Serialize for ImageHeader {
                 }
             },
             Self::Unknown { version, data } => {
-                let len = (1 + data.len()).try_into()?;
+                // the length covers its own two octets, the version and the data
+                let len = (3 + data.len()).try_into()?;
                 writer.write_u16::<LittleEndian>(len)?;
 
                 writer.write_u8(*version)?;
@@ -174,7 +175,7 @@ impl Serialize for ImageHeader {
                 ImageHeaderV1::Jpeg { .. } => 16,
                 ImageHeaderV1::Unknown { data, .. } => 4 + data.len(),
             },
-            Self::Unknown { data, .. } => 1 + data.len(),
+            Self::Unknown { data, .. } => 3 + data.len(),
         }
     }
 }
